@@ -28,7 +28,7 @@ func init() {
 	run.Register(&run.Check{
 		ID:    "C11",
 		Level: "exploration",
-		Cases: func(tier string) int { return tierN(tier, 1200, 20000) },
+		Cases: func(tier string) int { return tierN(tier, 4000, 80000) },
 		Run:   runC11,
 		Rule: "case = (multihash configuration with file limits 50-1000 bytes, key universe, fill history that spreads records over several files, then a kill phase that removes/overwrites all keys of chosen non-current files, or all but a few (low-use scenario), followed by Flush and harness-driven GC cycles with a Flush after each; some cases start with cycles stopped midway by a synthetic deadline). Oracle on directory listings, sizes, StorageSize and fsck's decoded layout: (a) every non-current primary file without live records is zero-length or unlinked within 4 primary cycles, and unlinked if it was the oldest file when visited; (b) every non-current index file no bucket refers into is zero-length or unlinked within 4 index cycles; (c) a primary file whose free share is >= threshold+10% is drained and released within live+4 cycles; (d) a cycle that relocated nothing does not grow StorageSize, otherwise growth is bounded by the relocated records, their rewritten record lists and 24 bytes of freelist per record; (e) after the bounds one more primary+index cycle and Flush changes no file. " +
 			"non-trivial iff at least one dead or low-use file existed and was released; distinct = hash of (configuration, digests, operations, scenario)",
